@@ -593,6 +593,12 @@ impl A {{
     if flavor == "multi":
         h = handler_fn(attr_text, "on_msg", "msg", "Msg", "_: &ActorRef<Self>", v,
                        "self.base + msg.v", "msg.fail")
+        # in modules that shadow the prelude's `Err`, the neighbour handlers stay away from
+        # Result types so that a macro that wrongly logs them still yields compilable code
+        if v["shadow"]:
+            third_ty, third_val = "Option<u32>", "None"
+        else:
+            third_ty, third_val = "std::result::Result<(), String>", 'std::result::Result::Err("third".to_string())'
         code = f'''
 #[derive(Actor)]
 pub struct A {{
@@ -608,8 +614,8 @@ impl A {{
 
 {h}
     #[handler(no_log)]
-    async fn on_third(&mut self, _m: Third, _: &ActorRef<Self>) -> std::result::Result<(), String> {{
-        std::result::Result::Err("third".to_string())
+    async fn on_third(&mut self, _m: Third, _: &ActorRef<Self>) -> {third_ty} {{
+        {third_val}
     }}
 
 {sync("self.base")}}}
@@ -617,7 +623,7 @@ impl A {{
 fn _assert_other()
 where
     A: rsactor::Message<Other, Reply = u32>,
-    A: rsactor::Message<Third, Reply = std::result::Result<(), String>>,
+    A: rsactor::Message<Third, Reply = {third_ty}>,
 {{
 }}
 '''
